@@ -296,6 +296,9 @@ INVALID_COMBOS = [
     ['-', '<a>'], ['<a>', '-'], ['-', '--in-place'], ['<a>', '<b>'], ['<d>'], ['<a>', '--output', '<out>', '--in-place'],
     ['<a>', '--no-such-flag'], ['--remove-class-attribute-annotations', '--no-remove-annotations', '<a>'],
     ['<a>', '<b>', '--output', '<out>'], [], ['<d>', '--output', '<out>'], ['-', '-'], ['<d>', '<a>'],
+    # standard input named among several paths, in every position, with and without --in-place
+    ['<a>', '-', '--in-place'], ['<a>', '<b>', '-', '--in-place'], ['<a>', '-', '<b>', '--in-place'], ['-', '<a>', '--in-place'], ['--in-place', '<a>', '-'],
+    ['<d>', '-', '--in-place'], ['<a>', '-', '--output', '<out>'], ['-', '-', '--in-place'], ['<a>', '--in-place', '--output', '<out>', '<b>'],
 ]
 
 
